@@ -2,10 +2,10 @@ package c16
 
 import (
 	"bytes"
-	"fmt"
 	"compress/gzip"
 	"encoding/binary"
 	"encoding/hex"
+	"fmt"
 	"io"
 	"runtime"
 	"testing"
@@ -27,11 +27,12 @@ type treeSpec struct {
 }
 
 type faultTree struct {
-	spec  treeSpec
-	base  fontscan.VerifIndex // from-scratch scan of the tree
-	gz    []byte              // serializeTo(base)
-	plain []byte              // gunzip(gz)
-	flds  []field             // length / count fields of plain
+	spec    treeSpec
+	base    fontscan.VerifIndex // from-scratch scan of the tree
+	gz      []byte              // serializeTo(base)
+	plain   []byte              // gunzip(gz)
+	flds    []field             // length / count fields of plain
+	entries []entryLayout       // where the entries of plain are
 }
 
 // faultTrees describes the (three) small trees. The first is fixed, the others are sampled from
@@ -114,7 +115,10 @@ func buildFaultTree(t ev.TB, w *world, spec treeSpec) *faultTree {
 		t.Fatalf("gunzip of serialised tree %s: %v", spec.Name, err)
 	}
 	ft := &faultTree{spec: spec, base: r.index, gz: buf.Bytes(), plain: plain}
-	ft.flds = lengthFields(plain)
+	ft.flds, ft.entries = layout(plain)
+	if len(ft.entries) != len(r.index) || (len(ft.entries) > 0 && ft.entries[len(ft.entries)-1].End != len(plain)) {
+		t.Fatalf("tree %s: the format walker of the harness disagrees with the serialiser (%d entries of %d, %d bytes)", spec.Name, len(ft.entries), len(r.index), len(plain))
+	}
 	return ft
 }
 
@@ -124,9 +128,20 @@ type field struct {
 	Name       string
 }
 
-// lengthFields walks a VALID plaintext (format of serialize.go, version 6) and returns where its
-// length and count fields are. It returns what it found so far when the bytes stop making sense.
-func lengthFields(p []byte) (out []field) {
+// entryLayout locates one file entry of the plaintext: [Start, End) is the whole segment including
+// its 4-byte size field; Cuts are the offsets strictly inside the entry after which the rest of
+// the entry is a whole number of footprints (after path+modTime, and after every footprint but the
+// last): cutting or splicing there leaves bytes that still decode as an entry with fewer faces.
+type entryLayout struct {
+	Start, PathLen, Path, ModTime, End int
+	FpStart                            []int // start offset of every footprint
+	Cuts                               []int
+}
+
+// layout walks a VALID plaintext (format of serialize.go, version 6) and returns where its length
+// and count fields and its entries are. It returns what it found so far when the bytes stop
+// making sense.
+func layout(p []byte) (out []field, entries []entryLayout) {
 	defer func() { recover() }()
 	out = append(out, field{0, 2, "version"}, field{2, 4, "entries"})
 	n := int(binary.BigEndian.Uint32(p[2:]))
@@ -136,12 +151,16 @@ func lengthFields(p []byte) (out []field) {
 		off += 2 + int(binary.BigEndian.Uint16(p[off:]))
 	}
 	for i := 0; i < n; i++ {
+		e := entryLayout{Start: off}
 		out = append(out, field{off, 4, "entry_size"})
 		end := off + 4 + int(binary.BigEndian.Uint32(p[off:]))
 		off += 4
+		e.PathLen, e.Path = off, off+2
 		str("path_len")
+		e.ModTime = off
 		off += 8
 		for off < end {
+			e.FpStart = append(e.FpStart, off)
 			str("file_len")
 			off += 4
 			str("family_len")
@@ -151,8 +170,39 @@ func lengthFields(p []byte) (out []field) {
 			off += 1 + 4*int(p[off])
 			off += 64 + 9
 		}
+		e.End = end
+		for _, f := range e.FpStart {
+			if f < end {
+				e.Cuts = append(e.Cuts, f)
+			}
+		}
+		entries = append(entries, e)
 	}
-	return out
+	return out, entries
+}
+
+func lengthFields(p []byte) []field { f, _ := layout(p); return f }
+
+// insideEntry tells whether logical offset pos of the plaintext lies strictly inside an entry
+// (a stream cut there leaves a partial entry behind).
+func insideEntry(entries []entryLayout, pos int) bool {
+	for _, e := range entries {
+		if pos > e.Start && pos < e.End {
+			return true
+		}
+	}
+	return false
+}
+
+// gunzipPartial returns how many bytes of the logical stream can be recovered from data, and
+// whether data is a complete valid gzip stream when read to its end.
+func gunzipPartial(data []byte) (n int, complete bool) {
+	r, err := gzip.NewReader(bytes.NewReader(data))
+	if err != nil {
+		return 0, false
+	}
+	m, err := io.Copy(io.Discard, r)
+	return int(m), err == nil
 }
 
 // ---------------------------------------------------------------------------------------------
@@ -167,9 +217,13 @@ type edit struct {
 
 type faultCase struct {
 	Tree      treeSpec `json:"tree"`
-	Layer     string   `json:"layer"` // gzip: the fault is on the file bytes; plain: on the decompressed payload, re-compressed
-	Kind      string   `json:"kind"`  // prefix xor field multi
-	Pos       int      `json:"pos"`   // prefix: length kept; xor: byte offset; field: offset of the field
+	Layer     string   `json:"layer"`           // gzip: the fault is on the file bytes; plain: on the decompressed payload, re-compressed
+	Kind      string   `json:"kind"`            // prefix xor field multi struct
+	Edit      string   `json:"edit,omitempty"`  // struct: name of the structure-aware edit
+	Entry     int      `json:"entry,omitempty"` // struct: entry the edit applies to
+	A         int      `json:"a,omitempty"`     // struct: first footprint / count
+	B         int      `json:"b,omitempty"`     // struct: end footprint (exclusive)
+	Pos       int      `json:"pos"`             // prefix: length kept; xor: byte offset; field: offset of the field
 	Mask      int      `json:"mask,omitempty"`
 	Field     string   `json:"field,omitempty"`
 	Value     uint64   `json:"value,omitempty"`
@@ -242,11 +296,143 @@ func faultedBytes(ft *faultTree, fc *faultCase) []byte {
 		}
 	case "multi":
 		b = applyEdits(src, fc.Edits)
+	case "struct":
+		b = structEdit(ft, fc)
 	}
 	if fc.Layer == "plain" {
 		return gzipOf(b)
 	}
 	return b
+}
+
+// ---- structure-aware edits of the payload (always re-compressed: the file is a valid gzip stream)
+//
+// strict edits leave every entry either intact or with a changed identity (path / modTime), or
+// damage the framing without repairing it: the refresh contract then promises that a refresh from
+// the accepted index equals a from-scratch scan. "valid lies" re-encode an entry with fewer faces
+// under an intact path+modTime and correct framing: no reader can tell them from an honest index,
+// so only the operational well-formedness is demanded for them.
+var structEdits = []struct {
+	name   string
+	strict bool
+}{
+	{"dup_entry", true}, {"swap_with_next", true}, {"drop_entry", true}, {"reverse_entries", true},
+	{"mtime_plus1", true}, {"mtime_zero", true}, {"path_changed", true}, {"bogus_entry", true},
+	{"same_path_other_mtime_after", true}, {"count_minus1", true}, {"count_plus1", true}, {"tail_garbage", true},
+	{"cut_footprints_raw", true},
+	{"drop_last_k_fixup", false}, {"drop_first_fixup", false},
+}
+
+func structStrict(name string) bool {
+	for _, e := range structEdits {
+		if e.name == name {
+			return e.strict
+		}
+	}
+	return false
+}
+
+// withSize returns body framed as a segment (4-byte size + body).
+func withSize(body []byte) []byte {
+	out := make([]byte, 4, 4+len(body))
+	binary.BigEndian.PutUint32(out, uint32(len(body)))
+	return append(out, body...)
+}
+
+func structEdit(ft *faultTree, fc *faultCase) []byte {
+	p := ft.plain
+	var segs [][]byte
+	for _, e := range ft.entries {
+		segs = append(segs, append([]byte(nil), p[e.Start:e.End]...))
+	}
+	i := fc.Entry
+	if i < 0 || i >= len(segs) {
+		i = 0
+	}
+	if len(segs) == 0 {
+		return append([]byte(nil), p...)
+	}
+	e := ft.entries[i]
+	count := len(segs)
+	rel := func(off int) int { return off - e.Start }
+	var tail []byte
+	switch fc.Edit {
+	case "dup_entry":
+		segs = append(segs[:i+1:i+1], append([][]byte{segs[i]}, segs[i+1:]...)...)
+		count++
+	case "swap_with_next":
+		j := (i + 1) % len(segs)
+		segs[i], segs[j] = segs[j], segs[i]
+	case "drop_entry":
+		segs = append(segs[:i:i], segs[i+1:]...)
+		count--
+	case "reverse_entries":
+		for a, b := 0, len(segs)-1; a < b; a, b = a+1, b-1 {
+			segs[a], segs[b] = segs[b], segs[a]
+		}
+	case "mtime_plus1":
+		m := binary.BigEndian.Uint64(segs[i][rel(e.ModTime):])
+		binary.BigEndian.PutUint64(segs[i][rel(e.ModTime):], m+1)
+	case "mtime_zero":
+		binary.BigEndian.PutUint64(segs[i][rel(e.ModTime):], 0)
+	case "path_changed":
+		if e.ModTime > e.Path {
+			segs[i][rel(e.ModTime)-1] ^= 0x01
+		}
+	case "bogus_entry":
+		body := append([]byte(nil), serializeStr("nowhere/x.ttf")...)
+		body = append(body, p[e.ModTime:e.End]...)
+		segs = append(segs, withSize(body))
+		count++
+	case "same_path_other_mtime_after":
+		c := append([]byte(nil), segs[i]...)
+		m := binary.BigEndian.Uint64(c[rel(e.ModTime):])
+		binary.BigEndian.PutUint64(c[rel(e.ModTime):], m-1)
+		segs = append(segs, c)
+		count++
+	case "count_minus1":
+		count--
+	case "count_plus1":
+		count++
+	case "tail_garbage":
+		tail = []byte{0, 0, 0, 10, 0, 0, 1, 2, 3, 4, 5, 6, 7, 8}
+	case "cut_footprints_raw":
+		// footprints [A, B) of the entry are removed, the size field is left alone
+		bounds := append(append([]int(nil), e.FpStart...), e.End)
+		a, b := fc.A, fc.B
+		if a >= 0 && a < b && b < len(bounds) {
+			s := segs[i]
+			segs[i] = append(s[:rel(bounds[a]):rel(bounds[a])], s[rel(bounds[b]):]...)
+		}
+	case "drop_last_k_fixup":
+		// the last A footprints are removed and the size field repaired (A = all: path+modTime only)
+		bounds := append(append([]int(nil), e.FpStart...), e.End)
+		k := len(bounds) - 1 - fc.A
+		if k >= 0 && k < len(bounds) {
+			segs[i] = withSize(p[e.Start+4 : bounds[k]])
+		}
+	case "drop_first_fixup":
+		if len(e.FpStart) >= 2 {
+			body := append([]byte(nil), p[e.Start+4:e.FpStart[0]]...)
+			body = append(body, p[e.FpStart[1]:e.End]...)
+			segs[i] = withSize(body)
+		}
+	}
+	out := append([]byte(nil), p[:6]...)
+	if count < 0 {
+		count = 0
+	}
+	binary.BigEndian.PutUint32(out[2:], uint32(count))
+	for _, sg := range segs {
+		out = append(out, sg...)
+	}
+	return append(out, tail...)
+}
+
+func serializeStr(s string) []byte {
+	out := make([]byte, 2, 2+len(s))
+	binary.BigEndian.PutUint16(out, uint16(len(s)))
+	return append(out, s...)
 }
 
 func putField(b []byte, f field, v uint64) {
@@ -364,8 +550,16 @@ func checkFaulted(t ev.TB, ft *faultTree, fc *faultCase, data []byte) (accepted 
 		fail("a query on the accepted index panicked: %v\n%s", p, st)
 	}
 
-	// (c) it can be the previous index of a scan, and the scan yields what a from-scratch scan
-	// yields for every file whose (path, mtime) does not match one of its entries
+	// (c) it can be the previous index of a scan. What the scan must yield depends on the kind of
+	// damage:
+	//  strict — truncation at any byte (what a crash while writing leaves behind; on the payload
+	//    too: entries are size-prefixed, so a partial entry must never be taken for a whole one),
+	//    any damage to the FILE bytes, and structure-aware edits that keep every entry intact or
+	//    change its identity: the refresh from the accepted index equals a from-scratch scan;
+	//  weak — payload edits re-compressed into a valid file whose entries keep path+modTime but
+	//    carry other content (no reader can tell): from-scratch result for every file whose
+	//    (path, mtime) matches no entry, previous entry or from-scratch entry for the others.
+	strict := fc.Kind == "prefix" || fc.Layer == "gzip" || (fc.Kind == "struct" && structStrict(fc.Edit))
 	r := scan(idx, ft.spec.Roots)
 	if r.pan != nil {
 		fail("scan with the accepted index as previous index panicked: %v\n%s", r.pan, r.stack)
@@ -377,11 +571,25 @@ func checkFaulted(t ev.TB, ft *faultTree, fc *faultCase, data []byte) (accepted 
 		fail("scan with the accepted index as previous index: %d entries, from scratch %d (%v vs %v)", len(r.index), len(ft.base), paths(r.index), paths(ft.base))
 	}
 	matched := keysOf(idx)
+	excluded := false
 	for i := range ft.base {
 		bp, bm, _ := fontscan.VerifFileFootprintsParts(ft.base[i])
 		d := diffEntry(ft.base[i], r.index[i])
 		if d == "" {
 			continue
+		}
+		if strict && !excluded {
+			// Known finding: deserializeIndex stops reading after the last entry, so the gzip
+			// checksum is never verified and damaged file bytes can be accepted. The matcher is the
+			// defect itself: the file is NOT a valid gzip stream when read to its end.
+			_, complete := gunzipPartial(data)
+			if fc.Layer == "gzip" && fc.Kind != "prefix" && !complete && ev.Known(findingChecksum) {
+				ev.Excluded(findingChecksum)
+				excluded = true
+			} else {
+				fail("%s-layer %s damage was accepted without error, but the refresh from the accepted index differs from a from-scratch scan: %s (accepted index vs original: %s)",
+					fc.Layer, fc.Kind+fc.Edit, d, diffIndex(idx, ft.base))
+			}
 		}
 		if !matched[pathTime{bp, bm}] {
 			fail("scan with the accepted index as previous index differs from a from-scratch scan for a file that matches no entry: %s", d)
@@ -395,12 +603,14 @@ func checkFaulted(t ev.TB, ft *faultTree, fc *faultCase, data []byte) (accepted 
 		if !reused {
 			fail("scan with the accepted index as previous index: entry %s is neither the from-scratch one (%s) nor an entry of the previous index", short(bp), d)
 		}
-		// allowed by the statement (path and mtime match), but worth counting: the garbled
-		// footprint is trusted by the next refresh
+		// tolerated for this kind of damage (path and mtime match), but worth counting: the
+		// garbled footprint is trusted by the next refresh
 		outcome = "accepted_garbled_entry_survives_refresh"
 	}
 	return true, outcome
 }
+
+const findingChecksum = "C16-cache-checksum-unverified"
 
 // ---------------------------------------------------------------------------------------------
 // exhaustive enumeration
@@ -449,6 +659,23 @@ func TestPropFaults(t *testing.T) {
 			nt++
 		}
 		ev.Label(fc.Layer + "_" + fc.Kind + "_" + outcome)
+		if fc.Kind == "struct" {
+			ev.Label("struct_" + fc.Edit + "_" + outcome)
+		}
+		if fc.Kind == "prefix" {
+			if outcome == "error" {
+				ev.Label(fc.Layer + "_prefixes_rejected")
+			} else {
+				ev.Label(fc.Layer + "_prefixes_accepted")
+				pos := fc.Pos // offset in the logical stream after which bytes are missing
+				if fc.Layer == "gzip" {
+					pos, _ = gunzipPartial(data)
+				}
+				if insideEntry(ft.entries, pos) {
+					ev.Label(fc.Layer + "_prefixes_accepted_ending_inside_an_entry")
+				}
+			}
+		}
 		if outcome != "error" && fc.InPayload && ev.WantSample() {
 			fc.DataHex = ""
 			fc.Tree.Ops = nil
@@ -480,6 +707,36 @@ func TestPropFaults(t *testing.T) {
 		for _, f := range ft.flds {
 			for _, v := range fieldValues(getField(ft.plain, f), f.Width) {
 				run(ft, faultCase{Tree: spec, Layer: "plain", Kind: "field", Pos: f.Off, Field: f.Name, Value: v, InPayload: true})
+			}
+		}
+		// structure-aware edits at every entry and every footprint boundary
+		for i, e := range ft.entries {
+			for _, ed := range structEdits {
+				sc := faultCase{Tree: spec, Layer: "plain", Kind: "struct", Edit: ed.name, Entry: i, InPayload: true}
+				switch ed.name {
+				case "cut_footprints_raw":
+					for a := 0; a < len(e.FpStart); a++ {
+						for b := a + 1; b <= len(e.FpStart); b++ {
+							sc.A, sc.B = a, b
+							run(ft, sc)
+						}
+					}
+				case "drop_last_k_fixup":
+					for k := 1; k <= len(e.FpStart); k++ {
+						sc.A = k
+						run(ft, sc)
+					}
+				case "drop_first_fixup":
+					if len(e.FpStart) >= 2 {
+						run(ft, sc)
+					}
+				case "reverse_entries", "count_minus1", "count_plus1", "tail_garbage":
+					if i == 0 {
+						run(ft, sc)
+					}
+				default:
+					run(ft, sc)
+				}
 			}
 		}
 	}
